@@ -605,6 +605,39 @@ func runC11(p *core.Prog, r *core.Report) {
 			}
 		}
 		r.Check(okAll, "C11-R3", "list insert is followed by index++", p.Pos(st.Pos()), "every path from the slot store to a return increments the list length", "a path from the slot store returns without incrementing the list length: the slot would be overwritten by the next Add")
+		// …and nothing reads the list length in between: a scan (the migration) started before the increment misses the slot just filled
+		stale := ""
+		sx.Instrs(add, func(in ssa.Instruction) {
+			ld, ok := in.(*ssa.UnOp)
+			if !ok || ld.Op != token.MUL {
+				return
+			}
+			fa, ok := ld.X.(*ssa.FieldAddr)
+			if !ok || sx.FieldOf(fa) != syms.index {
+				return
+			}
+			// the load that feeds the increment itself is not a use of the length
+			onlyInc := ld.Referrers() != nil && len(*ld.Referrers()) > 0
+			for _, u := range *ld.Referrers() {
+				b, isB := u.(*ssa.BinOp)
+				if !isB || b.Op != token.ADD || b.Referrers() == nil {
+					onlyInc = false
+					continue
+				}
+				for _, uu := range *b.Referrers() {
+					if s2, isSt := uu.(*ssa.Store); !isSt || !cut.Instrs[s2] {
+						onlyInc = false
+					}
+				}
+			}
+			if onlyInc {
+				return
+			}
+			if sx.ReachInstr(add, st, in, cut) {
+				stale = "the list length is read at " + p.Pos(in.Pos()) + " after the slot store at " + p.Pos(st.Pos()) + " but before it was incremented: a scan bounded by it (the migration to maps) misses the entry just stored"
+			}
+		})
+		r.Check(stale == "", "C11-R3", "the list length is not read between a slot store and its increment", p.Pos(st.Pos()), "no use of the length on a path from the slot store to the increment", stale)
 	}
 	// mode is one-way
 	var modeVals []string
